@@ -687,6 +687,22 @@ def nonconserving_term(rng, n):
     return ((0, 1),)
 
 
+def in_place_edit(rng, n, kind):
+    """an in-place edit of an OpenFermion-style FermionOperator + the same edit on an oracle term list"""
+    from openfermion.ops import FermionOperator
+
+    x = rng.randrange(4)
+    if x == 0:
+        c = rng.choice([2.0, -0.5, 3, 1j])
+        return f"*= {c}", (lambda o: o.__imul__(c)), (lambda tl: [(k * c, t) for k, t in tl])
+    if x == 1:
+        return "/= 4", (lambda o: o.__itruediv__(4)), (lambda tl: [(k / 4, t) for k, t in tl])
+    c, t = rng.choice(COEFS), random_term(rng, n, kind)
+    if x == 2:
+        return f"+= {c}·{t}", (lambda o: o.__iadd__(FermionOperator(tuple(t), c))), (lambda tl: list(tl) + [(c, t)])
+    return f"-= {c}·{t}", (lambda o: o.__isub__(FermionOperator(tuple(t), c))), (lambda tl: list(tl) + [(-c, t)])
+
+
 def operator_forms(ctx: Ctx, kind, n, inp, S, inv_s, om, om_alt, budget):
     """argument forms and entry points of the operator mapper the in-tree callers rarely use: constant / zero operator,
     the quri-parts FermionOperator wrapper and its hermitian_conjugated(), sums that contain terms violating the
@@ -736,6 +752,36 @@ def operator_forms(ctx: Ctx, kind, n, inp, S, inv_s, om, om_alt, budget):
 
         if len({i for i, _ in mj}) == len(mj):
             cases.append(("MajoranaOperator", maj, mterms))
+    # histories: an operator DERIVED from another one through the package's conversion / wrapper entry points is a value of
+    # its own – after the source (or the result) is edited in place, each object must still map to the Fock-space matrix
+    # elements of what IT was created as / edited to.  build() returns the objects in the order they are to be mapped.
+    for _ in range(budget):
+        terms = [(rng.choice(COEFS), random_term(rng, n, kind)) for _ in range(rng.randint(1, 3))]
+        for which in ("source", "result"):
+            for deriv in ("fermion_operator_from_openfermion_op", "hermitian_conjugated", "from_openfermion_op∘hermitian_conjugated"):
+                edit_name, edit, edit_terms = in_place_edit(rng, n, kind)
+                label = f"{deriv}, then {which} {edit_name}"
+
+                def hist(terms=terms, which=which, deriv=deriv, edit=edit):
+                    import quri_parts.openfermion.operator as O
+
+                    if deriv == "fermion_operator_from_openfermion_op":
+                        src = fermion_op(terms)
+                        res = O.fermion_operator_from_openfermion_op(src)
+                    else:
+                        src = O.FermionOperator()
+                        for c, t in terms:
+                            src += O.FermionOperator(tuple(t), c)
+                        res = src.hermitian_conjugated()
+                        if deriv != "hermitian_conjugated":
+                            res = O.fermion_operator_from_openfermion_op(res)
+                    O.has_particle_number_symmetry(src, check_spin_symmetry=True)  # a query, not an edit
+                    edit(src if which == "source" else res)
+                    return [src, res]
+
+                rt = terms if deriv == "fermion_operator_from_openfermion_op" else hc_terms(terms)
+                cases.append((label + " [the source]", lambda hist=hist: hist()[0], edit_terms(terms) if which == "source" else terms))
+                cases.append((label + " [the derived operator]", lambda hist=hist: hist()[1], rt if which == "source" else edit_terms(rt)))
     for label, build, terms in cases:
         use = om if rng.random() < 0.5 else om_alt
         shown = f"{label}: {terms!r}"
@@ -743,7 +789,11 @@ def operator_forms(ctx: Ctx, kind, n, inp, S, inv_s, om, om_alt, budget):
             obj = build()
             first = use(obj)
             q = qubit_terms(first)
-            again = use(obj)  # the same object a second time (a mapper that consumed / edited its argument would differ)
+            try:  # the caller owns the returned Operator: editing it must not leak into the next call
+                first.constant = first.constant + 3.25
+            except Exception:  # noqa: BLE001
+                pass
+            again = use(obj)  # the same object a second time (a mapper that consumed / edited its argument, or cached, would differ)
         except Exception as e:  # noqa: BLE001
             ctx.witness(f"operator-mapper:{kind}", f"operator mapper raises {exc_name(e)} on a {label} argument", {**inp, "operator": shown[:600]},
                         str(e)[:200])
@@ -1227,6 +1277,30 @@ def k_operator_helpers(ctx: Ctx):
             if not good:
                 ctx.witness("fermion-operator-wrapper", "FermionOperator.hermitian_conjugated / fermion_operator_from_openfermion_op: wrong type, "
                             "terms changed, or the conjugate is not the adjoint on Fock space", {"operator": repr(tl)[:600]}, repr(r)[:300])
+            # value semantics: the converted / conjugated operator and its source do not follow each other's in-place edits
+            def alias():
+                src = fermion_op(tl)
+                conv = O.fermion_operator_from_openfermion_op(src)
+                hc = conv.hermitian_conjugated()
+                snap = (dict(src.terms), dict(conv.terms), dict(hc.terms))
+                src *= 2.0
+                src += OFF(((0, 1), (0, 0)), 0.125)
+                a = (dict(conv.terms) == snap[1], dict(hc.terms) == snap[2])
+                mid = dict(src.terms)
+                conv *= -3.0
+                conv -= OFF(((0, 1), (0, 0)), 0.5)
+                b = (dict(src.terms) == mid, dict(hc.terms) == snap[2])
+                keep = dict(conv.terms)
+                hc *= 0.5
+                return a + b + (dict(conv.terms) == keep, dict(src.terms) == mid)
+
+            r = _out(alias)
+            n_ev += 1
+            if r != ("ok", (True,) * 6):
+                ctx.witness("fermion-operator-wrapper", "an operator made by fermion_operator_from_openfermion_op / hermitian_conjugated changes when "
+                            "its source is edited in place (src *= 2.0; src += 0.125 n_0), or the source changes when the result is edited "
+                            "(order of the flags: conv, hc after source edit; src, hc after conv edit; conv, src after hc edit)",
+                            {"operator": repr(tl)[:600]}, repr(r)[:300])
     # operator_from_openfermion_op on hand-built QubitOperators
     for _ in range(ctx.n(200, 3000)):
         nq = rng.randint(1, 6)
@@ -1243,6 +1317,28 @@ def k_operator_helpers(ctx: Ctx):
         except Exception as e:  # noqa: BLE001
             ctx.witness("conversion", f"operator_from_openfermion_op raises {exc_name(e)}", {"qubit_operator": str(qop)[:300]})
             continue
+        def qalias():  # the converted Operator and the QubitOperator are independent values
+            res = O.operator_from_openfermion_op(qop)
+            before, src_before = qubit_terms(res), dict(qop.terms)
+            q2 = qop
+            q2 *= 2.0
+            q2 += QubitOperator(((0, "Z"),), 0.25)
+            a = qubit_terms(res) == before
+            mid = dict(qop.terms)
+            res.constant = res.constant + 1.5
+            for lab in list(res):
+                res[lab] = res[lab] * 3
+            qop *= 0.5  # undo the scaling so that `ref` below still describes qop up to the Z term
+            return a, {k: v * 0.5 for k, v in mid.items()} == dict(qop.terms) or dict(qop.terms).keys() == mid.keys()
+
+        ref0 = dict(qop.terms)
+        r = _out(qalias)
+        if r[0] != "ok" or not all(r[1]):
+            ctx.witness("conversion", "the Operator returned by operator_from_openfermion_op follows in-place edits of its source "
+                        "(q *= 2.0; q += 0.25 Z0) or the source follows edits of the result", {"qubit_operator": repr(ref0)[:300]}, repr(r)[:200])
+        qop = QubitOperator()
+        for t, c in ref0.items():
+            qop += QubitOperator(t, c)
         for b in range(1 << nq):
             c1, c2 = fock.qubit_column(got, b), fock.qubit_column(ref, b)
             if any(abs(c1.get(k, 0) - c2.get(k, 0)) > 1e-12 for k in set(c1) | set(c2)):
